@@ -298,6 +298,33 @@ def check_predictor(ctx, cfg, p, X, xq, st, info=None):
                 bad("column-form", "gradient(x_with_time_column) differs from gradient(x, time)", {"rows": xq.tolist()})
         except Exception as e:  # noqa
             bad("column-form|exception", "gradient(x_with_time_column) raises", {"rows": xq.tolist(), "exception": type(e).__name__})
+    # ---- derivatives follow the predictor's CURRENT state: after an in-place update of a public state attribute the
+    #      jit=True result (possibly served from a compilation cache) must agree with the uncompiled one
+    if hasattr(p, "copy") and not isinstance(p, MultiOutputColumn):
+        try:
+            pc = p.copy()
+
+            def grad_of(q, jit):
+                out = q.gradient(xq[:, :-1], xq[:, -1], jit=jit) if is_time else q.gradient(xq, jit=jit)
+                return np.asarray(out, dtype=float)
+            g_first = grad_of(pc, True)
+            pc.weights = pc.weights * 1.5
+            g_t, g_f = grad_of(pc, True), grad_of(pc, False)
+            st.evals += 2
+            for r in range(xq.shape[0]):
+                scale = max(1.0, float(np.abs(g_f[r]).max()) / max(float(np.abs(g_first[r]).max()), 1e-300))
+                tol_r = 64 * refs[r]["round"][0] * scale
+                e = float(np.abs(g_t[r] - g_f[r]).max())
+                st.ratio("after-update-jit-agreement", e / tol_r, keyb)
+                if not e <= tol_r:
+                    bad("state-update|gradient", "after an in-place update of the predictor's weights, gradient(jit=True) is not the derivative of what the "
+                        "predictor now returns (it differs from gradient(jit=False))",
+                        {"x": xq[r].tolist(), "sequence": "c = p.copy(); c.gradient(x); c.weights = 1.5 * c.weights; c.gradient(x, jit=True) vs c.gradient(x, jit=False)",
+                         "difference": e, "allowed_error": tol_r, "unchanged_from_before_update": bool(np.array_equal(g_t[r], g_first[r]))})
+                    break
+        except Exception as e:  # noqa
+            bad("state-update|exception|%s" % type(e).__name__, "derivative after an in-place state update raises",
+                {"exception": "%s: %s" % (type(e).__name__, str(e)[:300])})
     return ref0
 
 
